@@ -252,13 +252,13 @@ Notation sR := (@store VR).
    0*y + 0*y: a NaN stays a NaN *)
 Lemma set_zero_small_keeps_nan :
   exists (s s' : sR) y sp,
-    rd s y = Some (sp, [None]) /\ do_set_zero_g false y s = Ok tt s' /\ rd s' y = Some (sp, [None]).
+    rd s y = Some (sp, [None]) /\ do_set_zero_g SvUnguarded y s = Ok tt s' /\ rd s' y = Some (sp, [None]).
 Proof.
   exists [((1, 0)%nat, [None])], [((1, 0)%nat, [None])], 0%nat, (1, 0)%nat.
   splits; reflexivity.
 Qed.
 (* from THRESHOLD_SMALL entries on the zero assignment ignores the old contents (either variant) *)
-Lemma set_zero_g_large_clean (g : bool) (s : sR) y sp d :
+Lemma set_zero_g_large_clean (g : small_variant) (s : sR) y sp d :
   rd s y = Some (sp, d) -> (threshold_small <= length d)%nat ->
   do_set_zero_g g y s = Ok tt (upd s y (sp, cl (repeat 0%R (length d)))).
 Proof.
@@ -275,16 +275,17 @@ Lemma set_zero_large_clean (s : sR) y sp d :
   rd s y = Some (sp, d) -> (threshold_small <= length d)%nat ->
   do_set_zero y s = Ok tt (upd s y (sp, cl (repeat 0%R (length d)))).
 Proof. apply (set_zero_g_large_clean small_guarded). Qed.
-(* the repaired variant ignores the old contents at EVERY size *)
-Lemma set_zero_guarded_ignores_old (s : sR) y sp d :
-  rd s y = Some (sp, d) ->
-  do_set_zero_g true y s = Ok tt (upd s y (sp, cl (repeat 0%R (length d)))).
+(* both repaired variants ignore the old contents at EVERY size *)
+Lemma set_zero_guarded_ignores_old (g : small_variant) (s : sR) y sp d :
+  g <> SvUnguarded -> rd s y = Some (sp, d) ->
+  do_set_zero_g g y s = Ok tt (upd s y (sp, cl (repeat 0%R (length d)))).
 Proof.
-  intros E. destruct (Nat.lt_ge_cases (length d) threshold_small) as [L|L].
+  intros Hg E. destruct (Nat.lt_ge_cases (length d) threshold_small) as [L|L].
   - unfold do_set_zero_g, do_lincomb_g. rewrite E, sp_eqb_refl. cbn [andb].
     unfold lincomb_data_g. apply Nat.ltb_lt in L. rewrite L. unfold lincomb_small.
-    cbn [nzero neqb Num_opt ocmp Num_R]. destruct (Reqb_spec 0 0) as [_|N]; [|lra]. cbn [andb].
-    rewrite zeros_cl. reflexivity.
+    destruct g; [congruence| |];
+      cbn [nzero neqb Num_opt ocmp Num_R]; (destruct (Reqb_spec 0 0) as [_|N]; [|lra]); cbn [andb];
+      rewrite zeros_cl; reflexivity.
   - apply set_zero_g_large_clean; assumption.
 Qed.
 (* and on NaN-free contents it is correct at every size *)
